@@ -7,11 +7,11 @@ run_one() {
   n=$1
   T=$(mktemp -d /tmp/benign.XXXXXX); mkdir -p $T/repo $T/verif
   rsync -a --exclude .git /repo/ $T/repo/; cp $VERIF/known_findings.json $T/verif/
-  if ! (cd $T/repo && patch -p1 -s --no-backup-if-mismatch < $VERIF/mutants/benign/$n.diff) >/dev/null 2>&1; then echo "$n PATCH-FAILED"; rm -rf $T; return; fi
+  if ! (cd $T/repo && patch -p1 -s --no-backup-if-mismatch < $VERIF/mutants/${BENIGN_DIR:-benign}/$n.diff) >/dev/null 2>&1; then echo "$n PATCH-FAILED"; rm -rf $T; return; fi
   if ! (cd $T/repo && GOFLAGS=-mod=mod GOPROXY=off go build ./... ) >/dev/null 2>&1; then echo "$n DOES-NOT-COMPILE"; rm -rf $T; return; fi
   out=$($VERIF/bin/ottocheck all --repo $T/repo --verif $T/verif 2>&1)
   if echo "$out" | grep -q "^VIOLATION"; then echo "$n FALSE-ALARM: $(echo "$out" | grep -E '^(VIOLATED|UNDECIDED)' | head -2 | cut -c1-260)"; else echo "$n quiet"; fi
   rm -rf $T
 }
-export -f run_one; export VERIF
-ls mutants/benign/*.diff | xargs -n1 basename | sed 's/\.diff$//' | xargs -P 6 -I{} bash -c 'run_one {}'
+export -f run_one; export VERIF; export BENIGN_DIR=${BENIGN_DIR:-benign}
+ls mutants/${BENIGN_DIR:-benign}/*.diff | xargs -n1 basename | sed 's/\.diff$//' | xargs -P 6 -I{} bash -c 'run_one {}'
